@@ -183,6 +183,20 @@ func Render(htmlText string, o *Opts) (*document.Document, *rec.Doc, error) {
 	return &doc, r, nil
 }
 
+// RenderPages runs the whole pipeline onto a recording backend and also returns the page boxes that were drawn
+// (hook VerifPageBox), so that drawing and layout are observed on the same run.
+func RenderPages(htmlText string, o *Opts) ([]*boxes.PageBox, *rec.Doc, error) {
+	d, r, err := Render(htmlText, o)
+	if err != nil {
+		return nil, nil, err
+	}
+	var pages []*boxes.PageBox
+	for _, p := range d.Pages {
+		pages = append(pages, p.VerifPageBox())
+	}
+	return pages, r, nil
+}
+
 // Walk visits a box tree in pre-order.
 func Walk(b boxes.Box, f func(b boxes.Box, depth int) bool) { walk(b, 0, f) }
 
